@@ -192,12 +192,6 @@ pub mod command_api {
     pub struct Rest { _p: u8 }
     /// the builder: the request under construction and everything else (expectation, capability: untouched by the setters)
     pub struct RequestBuilder { pub req: Option<Request>, pub rest: Rest }
-    // `self.req.as_mut().unwrap()`: the request under construction (panics, explicitly, after build())
-    #[verifier::external_body]
-    pub fn req_mut(o: &mut Option<Request>) -> (r: &mut Request)
-        requires *old(o) is Some,
-        ensures *r == old(o)->Some_0, *final(o) == Some(*final(r)),
-    { unimplemented!() }
 
     impl RequestBuilder {
 //@extract id=command_api::body file=crux_http/src/command.rs within="impl<Effect, Event, ExpectBody> RequestBuilder<Effect, Event, ExpectBody>" item="fn body" props=C14
@@ -207,7 +201,6 @@ pub mod command_api {
             requires self.req is Some,
             ensures r.req == Some(Request { req: set_body_s(self.req->Some_0.req, body.as_body()), middleware: self.req->Some_0.middleware }) && r.rest == self.rest, // [C14/command_api-body/exactly-the-body-the-app-gave-set-once-nothing-else-touched]
 //@rule X19.mut-self * s/\bself\b/this/
-//@rule X7.req-mut 1 s/this\s*\.req\s*\.as_mut\(\)\s*\.unwrap\(\)/req_mut(&mut this.req)/
 //@entry
             let mut this = self;
 //@end
@@ -218,7 +211,6 @@ pub mod command_api {
             requires self.req is Some,
             ensures r.req == Some(Request { req: set_content_type_s(self.req->Some_0.req, content_type), middleware: self.req->Some_0.middleware }) && r.rest == self.rest, // [C14/command_api-content_type/exactly-the-content-type-the-app-gave]
 //@rule X19.mut-self * s/\bself\b/this/
-//@rule X7.req-mut 1 s/this\s*\.req\s*\.as_mut\(\)\s*\.unwrap\(\)/req_mut(&mut this.req)/
 //@rule X7.into 1 s/content_type\.into\(\)/content_type/
 //@entry
             let mut this = self;
@@ -232,7 +224,6 @@ pub mod command_api {
                 r matches Ok(b) ==> b.req is Some && set_query_s(self.req->Some_0.req, *query) == Ok::<HttpReq, HttpTypesError>(b.req->Some_0.req) && b.req->Some_0.middleware == self.req->Some_0.middleware && b.rest == self.rest, // [C14/command_api-query/exactly-the-query-the-app-gave-encoded-once]
                 r is Err ==> set_query_s(self.req->Some_0.req, *query) is Err,
 //@rule X19.mut-self * s/\bself\b/this/
-//@rule X7.req-mut 1 s/this\s*\.req\s*\.as_mut\(\)\s*\.unwrap\(\)/req_mut(&mut this.req)/
 //@entry
             let mut this = self;
 //@end
@@ -279,12 +270,6 @@ pub mod capability_api {
     pub struct Rest { _p: u8 }
     /// the builder: the request under construction and everything else (expectation, capability: untouched by the setters)
     pub struct RequestBuilder { pub req: Option<Request>, pub rest: Rest }
-    // `self.req.as_mut().unwrap()`: the request under construction (panics, explicitly, after build())
-    #[verifier::external_body]
-    pub fn req_mut(o: &mut Option<Request>) -> (r: &mut Request)
-        requires *old(o) is Some,
-        ensures *r == old(o)->Some_0, *final(o) == Some(*final(r)),
-    { unimplemented!() }
 
     impl RequestBuilder {
 //@extract id=capability_api::body file=crux_http/src/request_builder.rs within="impl<Event, ExpectBody> RequestBuilder<Event, ExpectBody>" item="fn body" props=C14
@@ -294,7 +279,6 @@ pub mod capability_api {
             requires self.req is Some,
             ensures r.req == Some(Request { req: set_body_s(self.req->Some_0.req, body.as_body()), middleware: self.req->Some_0.middleware }) && r.rest == self.rest, // [C14/capability_api-body/exactly-the-body-the-app-gave-set-once-nothing-else-touched]
 //@rule X19.mut-self * s/\bself\b/this/
-//@rule X7.req-mut 1 s/this\s*\.req\s*\.as_mut\(\)\s*\.unwrap\(\)/req_mut(&mut this.req)/
 //@entry
             let mut this = self;
 //@end
@@ -305,7 +289,6 @@ pub mod capability_api {
             requires self.req is Some,
             ensures r.req == Some(Request { req: set_content_type_s(self.req->Some_0.req, content_type), middleware: self.req->Some_0.middleware }) && r.rest == self.rest, // [C14/capability_api-content_type/exactly-the-content-type-the-app-gave]
 //@rule X19.mut-self * s/\bself\b/this/
-//@rule X7.req-mut 1 s/this\s*\.req\s*\.as_mut\(\)\s*\.unwrap\(\)/req_mut(&mut this.req)/
 //@rule X7.into 1 s/content_type\.into\(\)/content_type/
 //@entry
             let mut this = self;
@@ -319,7 +302,6 @@ pub mod capability_api {
                 r matches Ok(b) ==> b.req is Some && set_query_s(self.req->Some_0.req, *query) == Ok::<HttpReq, HttpTypesError>(b.req->Some_0.req) && b.req->Some_0.middleware == self.req->Some_0.middleware && b.rest == self.rest, // [C14/capability_api-query/exactly-the-query-the-app-gave-encoded-once]
                 r is Err ==> set_query_s(self.req->Some_0.req, *query) is Err,
 //@rule X19.mut-self * s/\bself\b/this/
-//@rule X7.req-mut 1 s/this\s*\.req\s*\.as_mut\(\)\s*\.unwrap\(\)/req_mut(&mut this.req)/
 //@entry
             let mut this = self;
 //@end
